@@ -208,7 +208,7 @@ func zeroOf(s Sort) Term {
 	case s == SInt:
 		return IntLit(0)
 	case s == SStr:
-		return Term{"str.empty", SStr}
+		return Term{"sx.empty", SStr}
 	case s.IsBV():
 		return BVLitI(s.Width(), 0)
 	}
